@@ -190,8 +190,56 @@ def replay(path):
 
 
 def selftest():
-    print("selftest: not implemented yet")
-    return 0
+    """Binding demonstration: recorded traces of the real code are accepted; the same traces with
+    one field corrupted, one event dropped, two events swapped, a flush removed or a response moved
+    behind the next read are each rejected by the trace specification."""
+    import copy
+    s = Session("selftest", "quick")
+    C.build_harness()
+    C.write_ifaces_module(s.wd)
+    base = [run_case("A:B;:A:E? 'q';:A:N 7\nB:D?\n"),
+            run_case("A:F;:C\nZ\nD\n"),
+            proc_case("B:D?\nA:E? 'x'\nC\n", 32, [5, 3, 100]),
+            {"kind": "queue", "K": 2, "ops": [{"op": "push", "n": -113}, {"op": "push", "n": -224}, {"op": "push", "n": -104},
+                                              {"op": "count"}, {"op": "pop"}, {"op": "pop"}, {"op": "pop"}]}]
+    recs = s.execute(base, "self")
+    rej = s.validate(recs, "self-ok", chunk=1)
+    if rej:
+        raise C.ToolError("selftest: an unmodified trace was rejected")
+    mutants = []
+
+    def mut(i, name, f):
+        r = copy.deepcopy(recs[i])
+        f(r["obs"])
+        mutants.append((name, r))
+    mut(0, "call id changed", lambda o: o[0].__setitem__("id", 1))
+    mut(0, "argument byte changed", lambda o: [e for e in o if e["e"] == "call" and e["args"]][0]["args"][0]["b"].__setitem__(0, 120))
+    mut(0, "response byte changed", lambda o: [e for e in o if e["e"] == "out"][0]["b"].__setitem__(1, 65))
+    mut(0, "flush dropped", lambda o: o.remove([e for e in o if e["e"] == "flush"][0]))
+    mut(0, "two calls swapped", lambda o: o.__setitem__(slice(0, 1), []) or o.insert(3, {"e": "call", "id": 0, "args": []}))
+    mut(1, "error number changed", lambda o: [e for e in o if e["e"] == "err"][0].__setitem__("n", -999))
+    mut(1, "error reported twice", lambda o: o.insert(2, copy.deepcopy([e for e in o if e["e"] == "err"][0])))
+    mut(1, "call after the faulty message dropped", lambda o: o.remove([e for e in o if e["e"] == "call" and e["id"] == 2][0]))
+    mut(2, "transport flush dropped", lambda o: o.remove([e for e in o if e["e"] == "aflush"][0]))
+
+    def move_write(o):
+        w = [k for k, e in enumerate(o) if e["e"] == "write"][0]
+        ev = o.pop(w)
+        nxt = [k for k, e in enumerate(o) if k >= w and e["e"] == "read"][0]
+        o.insert(nxt + 1, ev)
+    mut(2, "response written after the next read", move_write)
+    mut(2, "process returned Ok", lambda o: o[-1].__setitem__("res", "ok"))
+    mut(3, "queue count wrong", lambda o: [e for e in o if e["r"] == "count"][0].__setitem__("c", 3))
+    mut(3, "overflow marker missing", lambda o: [e for e in o if e["r"] == "pop"][1].__setitem__("n", -224))
+    bad = 0
+    for name, r in mutants:
+        rej = s.validate([r], "self-" + str(abs(hash(name)) % 10**6), chunk=1)
+        print("  %-42s %s" % (name, "rejected" if rej else "ACCEPTED (binding hole!)"))
+        if not rej:
+            bad += 1
+    C.cleanup(s.wd)
+    print("selftest: %d unmodified traces accepted, %d of %d mutated traces rejected" % (len(recs), len(mutants) - bad, len(mutants)))
+    return 2 if bad else 0
 
 
 # ----------------------------------------------------------------------- C07
@@ -1135,6 +1183,7 @@ def c09(tier):
                 else:
                     ops.append({"op": "count"})
             cases.append({"kind": "queue", "K": K, "ops": ops})
+    cases.append({"kind": "errtable"})      # number / description / Display / Response of all standard errors
     recs = s.execute(cases, "c09")
     rejected = s.validate(recs, "c09", chunk=500)
     s.report_rejected(rejected, "errors were not returned oldest first, the count was wrong, the queue exceeded its capacity, or overflow did not "
